@@ -20,8 +20,11 @@ type Application struct {
 }
 
 type Context struct {
-	Registers                   map[RegisterType]int32
-	Transaction                 map[RegisterType]transactionUnit
+	Registers   map[RegisterType]int32
+	Transaction map[RegisterType]transactionUnit
+	// transactionOverwritten holds, per register, the uncommitted writes that a
+	// later write replaced in Transaction: a rollback may have to restore one.
+	transactionOverwritten      map[RegisterType][]transactionUnit
 	PendingWriteRegisters       map[RegisterType]int
 	PendingReadRegisters        map[RegisterType]int
 	pendingWriteMemoryIntention map[int32]map[int]struct{}
@@ -49,6 +52,7 @@ func NewContext(debug bool, memoryBytes int, rat bool) *Context {
 	return &Context{
 		Registers:                   make(map[RegisterType]int32),
 		Transaction:                 make(map[RegisterType]transactionUnit),
+		transactionOverwritten:      make(map[RegisterType][]transactionUnit),
 		PendingWriteRegisters:       make(map[RegisterType]int),
 		PendingReadRegisters:        make(map[RegisterType]int),
 		pendingWriteMemoryIntention: make(map[int32]map[int]struct{}),
@@ -112,6 +116,9 @@ func (ctx *Context) WriteRegister(exe Execution) {
 }
 
 func (ctx *Context) TransactionWriteRegister(exe Execution, sequenceID int32) {
+	if tu, exists := ctx.Transaction[exe.Register]; exists {
+		ctx.transactionOverwritten[exe.Register] = append(ctx.transactionOverwritten[exe.Register], tu)
+	}
 	ctx.Transaction[exe.Register] = transactionUnit{sequenceID, exe.RegisterValue}
 }
 
@@ -120,15 +127,24 @@ func (ctx *Context) Commit() {
 		ctx.Registers[register] = tu.value
 	}
 	ctx.Transaction = make(map[RegisterType]transactionUnit)
+	ctx.transactionOverwritten = make(map[RegisterType][]transactionUnit)
 }
 
 func (ctx *Context) Rollback(sequenceID int32) {
 	for register, tu := range ctx.Transaction {
+		// The write to keep is the youngest one older than sequenceID: it may
+		// have been replaced by a write that is rolled back
+		for _, overwritten := range ctx.transactionOverwritten[register] {
+			if overwritten.sequenceID < sequenceID && (tu.sequenceID >= sequenceID || overwritten.sequenceID > tu.sequenceID) {
+				tu = overwritten
+			}
+		}
 		if tu.sequenceID < sequenceID {
 			ctx.Registers[register] = tu.value
 		}
 	}
 	ctx.Transaction = make(map[RegisterType]transactionUnit)
+	ctx.transactionOverwritten = make(map[RegisterType][]transactionUnit)
 }
 
 func (ctx *Context) InitRAT() {
